@@ -561,6 +561,12 @@ class FragGen:
             # stage 3b: top-level functions (parameters, value of the last expression, recursion), called by name
             for _ in range(self.r.randint(1, 3) if self.stage < 12 else self.r.randint(3, 5)):
                 out += self.function(env)
+        if self.stage >= 13 and env.get("makers") and self.r.random() < 0.6:
+            # stage 4h: a global function-valued constant
+            for _ in range(self.r.randint(1, 2)):
+                gk = self.fresh("gk")
+                out.append("%s :: %s(%s)" % (gk, self.r.choice(env["makers"]), self.r.choice(env["ints"] + [str(self.r.randint(0, 9))])))
+                env.setdefault("funs", []).append((gk, 1))
         out.append("start :: fn do")
         if self.stage >= 7:
             # stage 4c: local functions at the top level of a body; they capture (and change) the mutable locals of
